@@ -26,13 +26,13 @@ inline T log2(T const x)
 {
   static_assert(std::is_unsigned_v<T>, "log2 can only be used on unsigned types");
 
-  T r(1);
+  T r(0);
 
-  while ((x >> r) != 0)
+  for (T v(static_cast<T>(x >> 1)); v != 0; v = static_cast<T>(v >> 1))
   {
     ++r;
   }
-  return --r;
+  return r;
 }
 
 }
